@@ -4,11 +4,17 @@ C04 (sign / verify), C07 (MGF1 is shared with RSAES-OAEP), C19 (the caller's has
 Layering (every postcondition is stated with the spec functions of spec/rfc8017.py, section MGF1 / EMSA-PSS / RSAES-OAEP,
 written from the RFC; Hash is uninterpreted, xor is uninterpreted):
   MGF1                 == spec.rfc8017.mgf1: leading maskLen octets of T = Hash(seed || C(0)) || Hash(seed || C(1)) || ...
-                          (counter loop with an invariant over the recursively defined T, mgf1_T: DEFINITIONAL unfolding facts)
-  _EMSA_PSS_ENCODE     == spec.rfc8017.emsa_pss_em   (9.1.1 steps 3-12; salt = the next draw of the caller's randfunc tape)
+                          (counter loop with an invariant over the recursively defined T = mgf1_T, an uninterpreted symbol whose
+                          recursive definition is given as a DEFINITIONAL unfolding fact; `assert(len(T) >= maskLen)` never trips)
+  _EMSA_PSS_ENCODE     == spec.rfc8017.emsa_pss_em (9.1.1 steps 3-12; salt = the next draw of the caller's randfunc tape), and
+                          OS2IP(EM) < 2^emBits (clause `bound`)
   _EMSA_PSS_VERIFY     ValueError iff not spec.rfc8017.emsa_pss_ok (9.1.2 steps 3-14; an EM whose length is not emLen is refused)
-  PSS_SigScheme.verify ValueError iff not (len(S) == k, s < n, m = s^e mod n < 256^emLen, EMSA-PSS-VERIFY(I2OSP(m, emLen)) consistent)
-  PSS_SigScheme.sign   I2OSP(OS2IP(EM)^d mod n, k) for EM = EMSA-PSS-ENCODE(...), with the library's fault check
+  PSS_SigScheme.verify ValueError iff not spec.rfc8017.pss_accepts: len(S) == k, s < n, m = s^e mod n < 256^emLen and
+                          EMSA-PSS-VERIFY(I2OSP(m, emLen), modBits - 1) consistent (8.1.2); nothing else may escape
+  PSS_SigScheme.sign   == I2OSP(OS2IP(EM)^d mod n, k) for EM = EMSA-PSS-ENCODE(mHash, modBits - 1) (8.1.1), ValueError iff the key
+                          is too short (9.1.1 step 3) or the library's fault check fires, TypeError iff there is no private half;
+                          RSASP1's range error is PROVED impossible (`bound` + the defining inequality of the bit length)
+  new                  keyword handling (mask_func / salt_bytes / rand_func, ValueError iff another keyword is given)
 
 The mask generation function is a parameter of the scheme:
   * a caller-supplied one is the abstract callable `abs.Mgf` (ghost id g_id): mgf(seed, length) == spec.rfc8017.MGF(g_id, seed, length),
@@ -17,15 +23,19 @@ The mask generation function is a parameter of the scheme:
     parameter `mgf` is exactly that closure over the parameter `mhash`; its calls go through the PROVED contract of MGF1.
   In clauses `mgf(seed, n)` denotes the value of that call: spec.rfc8017.MGF(...) resp. spec.rfc8017.mgf1(alg, seed, n).
 
-The lmask loop (`for i in iter_range(8*emLen-emBits): lmask = lmask >> 1 | 0x80`, at most 7 iterations) is instantiated per
-value of emBits mod 8 (8 units per function: exhaustive in that parameter, everything else symbolic); with the trip count
-fixed the loop is unrolled and lmask is the constant 256 - 2^(8-z); the contract speaks of spec.rfc8017.low_bits(z) = 2^(8-z).
+Instantiations (each family of units covers every input of the general contract that callers use):
+  * the lmask loop (`for i in iter_range(8*emLen-emBits): lmask = lmask >> 1 | 0x80`, at most 7 iterations) is instantiated per
+    value of emBits mod 8 (8 units per function: exhaustive in that parameter, everything else symbolic); with the trip count
+    fixed the loop is unrolled and lmask is the constant spec.rfc8017.left_mask(8 emLen - emBits) = 256 - 2^(8-z);
+  * _EMSA_PSS_VERIFY additionally per len(em) == emLen / len(em) != emLen (keeps the slice arithmetic simple);
+  * _EMSA_PSS_ENCODE in two halves: all clauses but `bound` / `bound` alone (stepwise through exit lemmas, opt-in be() facts);
+  * PSS_SigScheme.sign / verify per configuration of the object (salt_bytes given or default) x (mask_func given or default).
 
 Domain restrictions (stated as preconditions, see the final comment block):
   * encoded messages / moduli of at most 2^32 octets: RFC 8017 B.2.1 step 1 makes MGF1 an error ("mask too long") for
     maskLen > 2^32 hLen; pss.MGF1 has no such check (it would continue with 8-octet counters).  Not replayable natively
     (>= 2^32 hash calls with a quadratic concatenation), hence a precondition and not a registered finding.
-  * sLen >= 0 (a salt LENGTH).
+  * sLen >= 0 (a salt LENGTH); len(em) >= 1 for _EMSA_PSS_VERIFY (its only caller passes long_to_bytes(...), never empty).
 """
 import ast
 
@@ -124,8 +134,8 @@ LEN_CASES = {None: [], 'eq': ['len(em) == ' + EMLEN], 'gt': ['len(em) > ' + EMLE
 
 
 def emsa_verify_contract(r=None, lencase=None):
-    """callers see the contract with r = lencase = None; it is PROVED as the union of the 8 x 3 instances
-    (emBits mod 8 == r) x (len(em) == / > / < emLen), which cover every input of the general contract"""
+    """callers see the contract with r = lencase = None; it is PROVED as the union of the 8 x 2 instances
+    (emBits mod 8 == r) x (len(em) == emLen / len(em) != emLen), which cover every input of the general contract"""
     H = S + 'pss_H(em, emBits, %s)' % HLEN
     ok = S + 'emsa_pss_ok(mhash.g_alg, %s, %s, em, emBits, sLen, mgf(%s, %s - %s - 1))' % (HLEN, MHASH, H, EMLEN, HLEN)
     return Contract(P + '_EMSA_PSS_VERIFY',
@@ -308,3 +318,59 @@ def units(prop, tier):
                 out.append(pyvc_unit(prop, 'sig.pss.sign.salt_%s.mgf_%s' % (salt, mgf),
                                      (lambda a=salt, b=mgf: registry(None, None, None, a, b)), [SCHEME + '.sign']))
     return out
+
+
+# ======================================================================================================================
+# Evidence of strength (tools/mut.py on lib/Crypto/Signature/pss.py, property C04; every mutant listed gave exit 1 on the
+# named obligation(s), every benign rename exit 0).  Obligation ids are prefixed C04.Signature.pss.
+#
+#   MGF1       long_to_bytes(counter, 4) -> , 2             MGF1.loop_inv_preserved.T_spec_rfc8017_mgf1_T...
+#              T = T + hobj.digest() -> hobj.digest() + T   MGF1.loop_inv_preserved.T_spec_rfc8017_mgf1_T...
+#              hobj.update(mgfSeed + c) -> (c + mgfSeed)    MGF1.loop_inv_preserved.T_spec_rfc8017_mgf1_T...
+#              return T[:maskLen] -> T[:maskLen+1]          MGF1.ensures.b21, MGF1.ensures.len
+#              rename hobj -> hh                            exit 0
+#   _EMSA_PSS_VERIFY (units emsa_verify.embits_mod8_3.len_eq / .len_ne)
+#              0xBC -> 0xBD                                 _EMSA_PSS_VERIFY.raises_iff.ValueError.if / .only_if
+#              emLen < hLen+sLen+2 -> +1                    _EMSA_PSS_VERIFY.raises_iff.ValueError.if, raises_only.IndexError
+#              lmask >> 1 | 0x80 -> | 0x40                  _EMSA_PSS_VERIFY.raises_iff.ValueError.if / .only_if
+#              step 6 check dropped (if False)              _EMSA_PSS_VERIFY.raises_iff.ValueError.if
+#              db[-sLen:] -> db[-sLen-1:]                   _EMSA_PSS_VERIFY.raises_iff.ValueError.if / .only_if
+#              startswith(PS + bchr(1)) -> startswith(PS)   _EMSA_PSS_VERIFY.raises_iff.ValueError.if
+#              hobj = mhash.new() -> hobj = mhash           _EMSA_PSS_VERIFY.modifies.obj1.g_data (C19 frame) + raises_iff
+#              rename hp -> hprime                          exit 0
+#   _EMSA_PSS_ENCODE (units emsa_encode.* / emsa_encode_bound.*)
+#              bchr(0xBC) -> bchr(0xBD)                     _EMSA_PSS_ENCODE.ensures.rfc8017_9_1_1
+#              PS length ...-2 -> ...-1                     _EMSA_PSS_ENCODE.raises_iff.ValueError.only_if (strxor length), on_raise
+#              lmask >> 1 | 0x80 -> | 0x40                  _EMSA_PSS_ENCODE.ensures.rfc8017_9_1_1, lemma.lead (bound)
+#              bchr(0)*8 -> bchr(0)*7 in M'                 _EMSA_PSS_ENCODE.ensures.rfc8017_9_1_1
+#              h = mhash.new() -> h = mhash                 _EMSA_PSS_ENCODE.modifies.obj1.g_data (C19 frame), ensures.rfc8017_9_1_1
+#              rename ps -> pstr                            exit 0
+#   PSS_SigScheme.verify (units verify.salt_*.mgf_*)
+#              `len(signature) != k` check dropped          PSS_SigScheme.verify.raises_iff.ValueError.if
+#              emLen = ceil_div(modBits-1, 8) -> (modBits, 8)   PSS_SigScheme.verify.raises_iff.ValueError.only_if
+#              _EMSA_PSS_VERIFY(.., modBits-1, ..) -> modBits   PSS_SigScheme.verify.raises_iff.ValueError.if / .only_if
+#              rename signature_int -> s_int                exit 0
+#   PSS_SigScheme.sign (units sign.salt_*.mgf_*)
+#              _EMSA_PSS_ENCODE(.., modBits-1, ..) -> modBits   PSS_SigScheme.sign.ensures.rfc8017_8_1_1, raises_iff.*
+#              fault check dropped (if False)               PSS_SigScheme.sign.raises_iff.ValueError.if
+#              _decrypt_to_bytes(em_int) -> (em_int + 1)    PSS_SigScheme.sign.ensures.rfc8017_8_1_1, raises_iff.ValueError.*
+#   new        pop("salt_bytes") -> pop("salt_len")         new.raises_iff.ValueError.only_if
+#              `if kwargs:` -> `if False:`                  new.raises_iff.ValueError.if
+#              PSS_SigScheme(rsa_key, mask_func, ..) -> (rsa_key, None, ..)   new.ensures.mask_func
+#              rename salt_len -> slen                      exit 0
+#
+# ASSUMED (named in the evidence of every unit that relies on them):
+#   hash objects abs.Hash (digest() == spec.rfc8017.Hash, empty frame; new(); update())   bounded/hashes.py
+#   Util.number.long_to_bytes / bytes_to_long == I2OSP / OS2IP                              bounded/number.py
+#   Util.strxor.strxor == spec.rfc8017.xor (uninterpreted), ValueError iff lengths differ   bounded/accel.py
+#   RsaKey._encrypt == s^e mod n, ValueError iff not 0 <= s < n    (contract of sig_common.add_rsa_key; proved by the RSA area)
+#   RsaKey._decrypt_to_bytes == I2OSP(c^d mod n, k)                (sig_common.add_rsa_key)     bounded/bigint.py, bounded/accel.py
+#   caller-supplied mask_func == spec.rfc8017.MGF(g_id, seed, length): a function of its arguments returning `length` octets   unchecked
+#   caller-supplied randfunc: ghost tape rnd_tape / cursor rnd_cursor (sig_common.randfunc_hook)
+#   trusted facts: definitional unfolding of mgf1_T (B.2.1 step 3); len(mgf1(..)) == maskLen in the domain (a consequence of the
+#   proved clause MGF1.ensures.len); opt-in arithmetic facts int_lemmas (sign), be_unfold + be_range (ENCODE `bound`)
+#
+# NOT PROVED / stated as precondition:
+#   MGF1: "mask too long" for maskLen > 2^32 hLen (RFC 8017 B.2.1 step 1) is not implemented by the code; the contract has the
+#       precondition maskLen <= 2^32 hLen and callers the domain `k <= 2^32 octets` (class invariant of PSS_SigScheme, EM_DOMAIN).
+#   PSS_SigScheme.__init__ / can_sign: trivial field assignments, no contract of their own (__init__ is executed inside `new`).
